@@ -788,7 +788,16 @@ def gen_history(fns, rng, maxlen):
                 path, o = pick_obj(h, want_cont=True)
                 if is_cont(M, o):
                     key = name if rng.random() < 0.93 else rng.choice(pool)
+                    future = None
+                    if path and rng.random() < 0.6 and len(ops) + 2 < n:
+                        # the id-to-be, looked up on an ancestor BEFORE the child exists (KeyError; a memo of failed
+                        # lookups would be filled now) and again once it has been inserted through the descendant
+                        k = rng.randrange(len(path))
+                        future = (h, list(path[:k]), ".".join([str(x) for x in path[k:]] + [key]))
+                        do(("lookup",) + future)
                     do(("set", h, path, key, len(w.handles) - 1))
+                    if future is not None and w.handles[h] is not None:
+                        pending.append(future)
             continue
         h = rng.choice(live)
         root = w.handles[h]
